@@ -100,6 +100,17 @@ def r1_numbering(ctx, rule="R1"):
         seq_expr.func.attr in ("splitlines", "rsplit", "partition") or (seq_expr.func.attr == "split" and not (
             len(seq_expr.args) == 1 and isinstance(seq_expr.args[0], ast.Constant) and seq_expr.args[0].value == "\n")))
     regex_split = isinstance(seq_expr, ast.Call) and U(seq_expr.func) in ("re.split", "re.findall")
+    # lines removed before they are numbered: a filter over the split text
+    filt = None
+    if isinstance(seq_expr, (ast.ListComp, ast.GeneratorExp)) and len(seq_expr.generators) == 1 and seq_expr.generators[0].ifs:
+        filt = seq_expr.generators[0].iter
+    elif C.is_call_to(seq_expr, "filter") and len(seq_expr.args) == 2:
+        filt = seq_expr.args[1]
+    elif C.is_call_to(seq_expr, "list") and len(seq_expr.args) == 1 and C.is_call_to(seq_expr.args[0], "filter") and len(seq_expr.args[0].args) == 2:
+        filt = seq_expr.args[0].args[1]
+    if filt is not None and isinstance(filt, ast.Call) and isinstance(filt.func, ast.Attribute) and filt.func.attr in ("split", "splitlines"):
+        known_other = True
+        why = "lines are removed from the split text before the numbering (`%s`): every later line gets a smaller number than its position in the file" % U(seq_expr)[:80]
     is_split_call = isinstance(seq_expr, ast.Call) and isinstance(seq_expr.func, ast.Attribute) and seq_expr.func.attr == "split"
     ctx.judge(split_ok, split_ok or known_other or regex_split or is_split_call, rule, "line split", f.where(seq_expr), why, f.qname, "line split")
     if not split_ok:
